@@ -48,14 +48,29 @@ FACTORS = {
     "`c:d`": ("`c:d`", ("c:d",), False, "c:d"),          # categorical, 2 levels
     "`w v`": ("w v", ("w v",), False, "w v"),
     "`p.q`": ("p.q", ("p.q",), False, "p.q"),
+    # Python-expression factors: names in keyword arguments / subscripts, expressions containing ':' (slice, dict literal; these
+    # PRINT back-quoted), a back-quoted name inside the expression, attribute / method access (recorded under the dotted name)
+    "np.clip(a, a_min=b, a_max=None)": ("np.clip(a, a_min=b, a_max=None)", ("np.clip", "a", "b"), False, "np.clip(a, a_min=b, a_max=None)"),
+    "I(a[0:] * 2)": ("`I(a[0:] * 2)`", ("I", "a"), False, "I(a[0:] * 2)"),
+    "B.map({'u': 1.5, 'v': 2})": ("`B.map({'u': 1.5, 'v': 2})`", ("B.map",), False, "B.map({'u': 1.5, 'v': 2})"),
+    "I(`w v` * 2)": ("I(`w v` * 2)", ("I", "w v"), False, "I(`w v` * 2)"),
+    "a.iloc[0:]": ("`a.iloc[0:]`", ("a.iloc",), False, "a.iloc[0:]"),
 }
+PYFACTORS = ["np.clip(a, a_min=b, a_max=None)", "I(a[0:] * 2)", "B.map({'u': 1.5, 'v': 2})", "I(`w v` * 2)", "a.iloc[0:]"]
+
+
+def python_universe():
+    """every ordered sequence of 1..2 distinct factors of PYFACTORS + [A, b] that contains at least one Python-expression factor"""
+    pool = PYFACTORS + ["A", "b"]
+    return [t for k in (1, 2) for t in itertools.permutations(pool, k) if any(f in PYFACTORS for f in t)]
+
 # ASCII-sorted by printed form, so that subsets rendered in this order print in sorted factor order
 BASE = ["A", "B", "a", "{a+b}", "b"]
 SPECIAL = [("2.5", "a"), ("B", "A"), ("b", "A", "a"), ("poly(a,2)",), ("bs(a,df=4)",), ("D",), ("D", "A")]
 
 
 # factors that evaluate to numerical (not categorical, not constant) values: the keys of `cluster_by="numerical_factors"`
-NUMERICAL = {"a", "b", "{a+b}", "poly(a,2)", "bs(a,df=4)", "`ns:qty`", "`ns:price`", "`w v`", "`p.q`"}
+NUMERICAL = set(PYFACTORS) | {"a", "b", "{a+b}", "poly(a,2)", "bs(a,df=4)", "`ns:qty`", "`ns:price`", "`w v`", "`p.q`"}
 UCLUSTER = [("a",), ("b",), ("A",), ("A", "a"), ("A", "b"), ("a", "b"), ("B",), ("poly(a,2)",), ("2.5", "a")]
 
 QPOOL = ["`ns:qty`", "`ns:price`", "`c:d`", "`w v`", "A", "a"]
@@ -259,8 +274,11 @@ def drv(c, ctx, col):
     # ---- 2. per-term index ranges -------------------------------------------
     ti = ms.term_indices
     keys = list(ti)
-    pr = lambda ts: [printed(t) if t else "1" for t in ts]  # noqa: E731
-    if [str(k) for k in keys] != pr(exp_terms) or [str(t) for t in ms.terms] != pr(formula_order):
+    # terms are identified by their factor expressions (not by their printed form, which is whatever str(term) returns and is
+    # what the printed-form lookups below use)
+    pr = lambda ts: [":".join(FACTORS[f][3] for f in t) if t else "1" for t in ts]  # noqa: E731
+    ex = lambda ts: [":".join(f.expr for f in t.factors) for t in ts]  # noqa: E731
+    if ex(keys) != pr(exp_terms) or ex(ms.terms) != pr(formula_order):
         bad("term-order", "terms", {"term_indices_keys": [str(k) for k in keys], "spec_terms": [str(t) for t in ms.terms],
                                     "expected_column_generation_order": pr(exp_terms), "expected_formula_order": pr(formula_order),
                                     "expr": "print(ms.term_indices)"})
@@ -403,6 +421,41 @@ def drv(c, ctx, col):
                     bad("variable-indices-wrong", "get_variable_indices([%r])" % v, {"got": r, "want": sorted(exp_vars[v]),
                                                                                    "expr": "print(ms.get_variable_indices([%r]))" % v})
 
+
+    # ---- 5b. independent evidence for variable -> columns: perturb one data column, see which matrix columns change --------
+    if ctx.get("perturb") and vi[0] == "ok":
+        base = dense(mm, output)
+        used = []
+        for t in exp_terms:
+            for v in term_vars(t):
+                cname = v if v in data.columns else v.split(".", 1)[0]
+                if cname in data.columns and cname not in used:
+                    used.append(cname)
+        for cname in used:
+            d2 = data.copy()
+            if d2[cname].dtype == object:
+                lv = sorted(set(d2[cname]))
+                d2[cname] = pd.Series([lv[(lv.index(x) + 1) % len(lv)] for x in d2[cname]], dtype=object)
+            else:
+                d2[cname] = d2[cname] * 1.5 + 0.25
+            try:
+                mm2 = model_matrix(spec_in, d2, output=output, ensure_full_rank=efr, cluster_by=cluster)
+            except Exception:  # noqa: BLE001 - the perturbed data need not be valid for every transform
+                col.count("perturbation-not-applicable")
+                continue
+            if list(mm2.model_spec.column_names) != names:
+                col.count("perturbation-not-applicable")
+                continue
+            new = dense(mm2, output)
+            changed = [q for q in range(ncols) if not np.allclose(base[:, q], new[:, q], rtol=1e-9, atol=1e-12, equal_nan=True)]
+            # attribute / method access is recorded under a dotted name rooted at the column (known findings K3): accept those keys
+            reported = sorted({q for k, ix in vi[1].items() if k == cname or (k.split(".", 1)[0] == cname and k not in data.columns) for q in ix})
+            col.count("perturbations")
+            missed = [q for q in changed if q not in reported]
+            if missed:
+                bad("variable-indices-miss-dependent-column", "column %r" % cname,
+                    {"perturbed_data_column": cname, "matrix_columns_that_changed": [names[q] for q in changed], "changed_positions": changed,
+                     "variable_indices_for_it": reported, "variable_indices": vi[1], "expr": "print(ms.variable_indices)"})
 
 
 def reparses(term):
@@ -604,13 +657,16 @@ def subchecks(tier, seed):
              "back-quoted name, i.e. quoted factors in first / middle / last position" % (QPOOL,))
     CNOTE = ("cluster_by is the one ModelSpec option (besides ensure_full_rank) that changes the order in which columns are generated: "
              "the structure / index ranges follow the clustered order while spec.terms keeps the formula order")
-    for t in U3 + USUB + UQ + UCLUSTER:  # the hand-written table must describe every universe term
+    UP = python_universe()
+    PNOTE = ("Python-expression factors alone and interacted (first / last) with A, b and each other; additionally every data column "
+             "is perturbed and the matrix columns that change must lie inside variable_indices of that column")
+    for t in U3 + USUB + UQ + UCLUSTER + UP:  # the hand-written table must describe every universe term
         for f in t:
             assert f in FACTORS
     W = lambda U: [written(t) for t in U]  # noqa: E731
     ALLOUT = ["pandas", "numpy", "sparse"]
 
-    def sub(name, checks, U, nmin, nmax, outputs, frame_ids, shard_depth, first=None, note=None, second=None, cluster_by=None):
+    def sub(name, checks, U, nmin, nmax, outputs, frame_ids, shard_depth, first=None, note=None, second=None, cluster_by=None, perturb=False):
         b = {"checks": checks, "terms_per_formula": "%d..%d (+ intercept)" % (nmin, nmax), "universe": W(U), "outputs": outputs,
              "ensure_full_rank": [True, False], "frames": [i + 1 for i in frame_ids], "forms": FORMS}
         if first is not None:
@@ -622,7 +678,7 @@ def subchecks(tier, seed):
         if second:
             b["optional_extra_term"] = [written(t) if t else None for t in second]
         return Sub(name, drv, {"universe": U, "nmin": nmin, "nmax": nmax, "frames": fr, "outputs": outputs, "frame_ids": frame_ids,
-                               "checks": checks, "first": first, "second": second, "cluster_by": cluster_by}, shard_depth=shard_depth, bounds=b)
+                               "checks": checks, "first": first, "second": second, "cluster_by": cluster_by, "perturb": perturb}, shard_depth=shard_depth, bounds=b)
 
     if tier == "quick":
         first = U3[seed % len(U3)]
@@ -636,6 +692,7 @@ def subchecks(tier, seed):
             sub("meta-quoted-names", ["metadata"], UQ, 1, 1, ["pandas"], [0], 2, second=QSECOND, note=QNOTE),
             sub("subsets-quoted-names", ["subsets"], UQ2, 1, 1, ["pandas"], [1], 2, second=QSECOND, note=QNOTE),
             sub("meta-cluster", ["metadata"], UCLUSTER, 2, 3, ["pandas"], [0], 3, cluster_by=["numerical_factors"], note=CNOTE),
+            sub("meta-python-factors", ["metadata"], UP, 1, 1, ["pandas"], [0], 2, second=[None, ("a",)], perturb=True, note=PNOTE),
         ] + reuse_subs(tier)
     return [
         sub("meta-le2", ["metadata"], U3, 0, 2, ALLOUT, [0, 1], 3),
@@ -646,5 +703,6 @@ def subchecks(tier, seed):
         sub("meta-quoted-names", ["metadata"], UQ, 1, 1, ALLOUT, [0, 1], 2, second=QSECOND + [("`ns:price`",), ("a",)], note=QNOTE),
         sub("subsets-quoted-names", ["subsets"], UQ, 1, 1, ["pandas", "sparse"], [1], 2, second=QSECOND, note=QNOTE),
         sub("meta-cluster", ["metadata"], UCLUSTER, 2, 3, ALLOUT, [0], 3, cluster_by=["numerical_factors"], note=CNOTE),
+        sub("meta-python-factors", ["metadata", "subsets"], UP, 1, 1, ALLOUT, [0], 2, second=[None, ("a",), ("A", "b")], perturb=True, note=PNOTE),
         sub("subsets-cluster", ["subsets"], UCLUSTER, 2, 2, ["pandas"], [1], 3, cluster_by=["numerical_factors"], note=CNOTE),
     ] + reuse_subs(tier)
